@@ -35,11 +35,11 @@ EXHAUSTIVE = {"quick": True, "thorough": True}
 FLOORS = {
     "quick": {"sequences": 70000, "sequences-with-bytes-names": 70000,
               "pair-sequences:same-parser-result": 1800, "pair-sequences:fresh": 1800,
-              "sequences-with-the-empty-name": 10000, "monitor:invariant.names_unique": 200000,
+              "sequences-with-the-empty-name": 10000, "loaded-script-sequences": 1000, "monitor:invariant.names_unique": 200000,
               "lockstep-steps": 150000},
     "thorough": {"sequences": 3000000, "sequences-with-bytes-names": 3000000,
                  "pair-sequences:same-parser-result": 70000, "pair-sequences:fresh": 70000,
-                 "sequences-with-the-empty-name": 10000, "monitor:invariant.names_unique": 9000000,
+                 "sequences-with-the-empty-name": 10000, "loaded-script-sequences": 30000, "loaded-script-sequences": 1000, "monitor:invariant.names_unique": 9000000,
                  "lockstep-steps": 7000000},
 }
 SHARD_TIMEOUT = {"quick": 600, "thorough": 3000}
@@ -103,6 +103,9 @@ def plan(tier, seed):
         n = len(ALPHA_E) ** length
         for s, e in split(n, 1 if length < 3 else 4):
             shards.append({"w": "enum-e", "len": length, "range": [s, e]})
+    nl = 1200 if tier == "quick" else 40000
+    for i, (s, e) in enumerate(split(nl, 4 if tier == "quick" else 16)):
+        shards.append({"w": "loaded", "n": e - s, "rs": seed * 31 + 7 + i})
     npair = 4000 if tier == "quick" else 150000
     for i, (s, e) in enumerate(split(npair, 8 if tier == "quick" else 32)):
         shards.append({"w": "pairs", "n": e - s, "rs": seed * 7919 + 3 + i})
@@ -304,6 +307,103 @@ def run_sequence(ops, res: Result):
     return changed
 
 
+# hand-written scripts as a stored script may look (only shapes whose reading is unambiguous:
+# a top-level `if false` wraps exactly one command, that command is not itself `if false`,
+# and no elsif/else follows the wrapper)
+LOADED_SHAPES = [
+    'if true { keep; }',
+    'if false { keep; }',
+    'if true { keep; } elsif false { discard; } else { stop; }',
+    'if false { if true { keep; } }',
+    'if not false { keep; }',
+    'if anyof (false) { keep; }',
+    'if allof (false, true) { keep; } elsif false { stop; }',
+    'if true { stop; } elsif false { discard; } elsif false { keep; } else { stop; }',
+    'keep;',
+    '# Filter: a\nif false {\n    if true { keep; }\n}\n# Filter: b\nif true { stop; }\n'
+    '# Filter: c\nif false {\n    if anyof (false) { discard; }\n}',
+    'require "fileinto";\n# Filter: x\nif header :is "a" "b" { fileinto "c"; } '
+    'elsif false { keep; }\n# Filter: y\nif false { if size :over 1K { stop; } }',
+]
+
+
+def run_loaded(script, order, res: Result):
+    """A set loaded from a hand-written script: the class invariants hold right after the
+    load and after every disable / enable, flags follow the operations, and getfilter keeps
+    returning each filter's own content."""
+    del INV["fired"][:]
+    p0 = lab.sl_parser.Parser()
+    if p0.parse(script) is not True:
+        res.inconclusive.append("loaded-shapes script does not parse: %r" % script[:60])
+        return
+    expected = []
+    is_if = []
+    for c in p0.result:
+        if c.name == "require":
+            continue
+        is_if.append(c.name == "if")
+        buf = io.StringIO()
+        c.tosieve(target=buf)
+        inner = c.children[0] if is_wrapped(buf.getvalue()) else c
+        buf2 = io.StringIO()
+        inner.tosieve(target=buf2)
+        expected.append((buf2.getvalue(), not is_wrapped(buf.getvalue())))
+    p = lab.sl_parser.Parser()
+    p.parse(script)
+    fs = fl.FiltersSet("loaded")
+    r = fl.call(fs.from_parser_result, p)
+    trace = [["load", script]]
+
+    def audit(step):
+        check_invariants_builtin(fs)
+        bad = list(INV["fired"])
+        del INV["fired"][:]
+        names = [f["name"] for f in fs.filters]
+        if len(names) != len(expected):
+            bad.append(("filter-count", "%d filters for %d commands" % (len(names), len(expected))))
+        else:
+            for f, (text, enabled) in zip(fs.filters, state):
+                if f["enabled"] != enabled:
+                    bad.append(("enabled-flag", "%r is %r, expected %r" % (f["name"], f["enabled"], enabled)))
+                g = fl.call(fs.getfilter, f["name"])
+                got = None
+                if g[0] == "ret" and g[1] is not None:
+                    b = io.StringIO()
+                    g[1].tosieve(target=b)
+                    got = b.getvalue()
+                if got != text:
+                    bad.append(("getfilter-content", "%r: got %r want %r" % (f["name"], got, text)))
+        res.monitor("loaded-set-audit", bool(bad))
+        for what, detail in bad[:2]:
+            res.violation({"monitor": "loaded-set", "which": what, "after": step},
+                          {"sequence": trace, "detail": detail})
+        return not bad
+
+    if r[0] != "ret":
+        res.violation({"monitor": "loaded-set", "which": "load-raised", "after": "load"},
+                      {"sequence": trace, "detail": repr(r)[:200]})
+        return
+    state = [[t, e] for t, e in expected]
+    if not audit("load"):
+        return
+    names = [f["name"] for f in fs.filters]
+    for k in order:
+        i = k % len(names)
+        if not is_if[i]:
+            continue  # an elsif / else branch is not a filter one can switch off by itself
+        op = "disable" if (k // len(names)) % 2 == 0 else "enable"
+        trace.append([op, names[i]])
+        fl.call(fs.disablefilter if op == "disable" else fs.enablefilter, names[i])
+        state[i][1] = (op == "enable")
+        res.count("lockstep-steps")
+        if not audit(op):
+            return
+    t = fl.render(fs)
+    if t[0] != "ret" or lab.sl_parser.Parser().parse(t[1]) is not True:
+        res.violation({"monitor": "loaded-set", "which": "rendering-rejected", "after": "ops"},
+                      {"sequence": trace, "detail": repr(t)[:300]})
+
+
 def two_sets(origin, rng):
     """-> [(fs, model), (fs, model)]: two live sets.  origin 'fresh': two empty sets;
     'same-parser-result': both loaded from ONE Parser result of a saved script with three
@@ -414,6 +514,14 @@ def run_shard(tier, shard, res: Result):
             res.case(repr(ops), nontrivial=ch)
             if idx % 20011 == 0:
                 res.sample({"workload": "enum", "sequence": [list(o) for o in ops]}, 2)
+    elif shard["w"] == "loaded":
+        rng = random.Random(shard["rs"])
+        for i in range(shard["n"]):
+            sc = LOADED_SHAPES[i % len(LOADED_SHAPES)]
+            run_loaded(sc, [rng.randrange(12) for _ in range(rng.randint(1, 8))], res)
+            res.count("sequences")
+            res.count("loaded-script-sequences")
+            res.case(repr((sc, i)))
     elif shard["w"] == "enum-e":
         n = len(ALPHA_E)
         s, e = shard["range"]
